@@ -1,7 +1,7 @@
 (** * C09 - definite assignment
 
     Model: model/Scope.v, the environment threading of the constraint generator ([check_program T
-    false] is the code as it is).  [ssruns T false [] p t o]: t is the event trace of one execution
+    restored] is the code as it is).  [ssruns T false [] p t o]: t is the event trace of one execution
     path of the skeleton program p.  The scope stack replayed over a trace ([all_events]) gives the
     lexically visible definition of a name at every event. *)
 From Coq Require Import List Bool Arith.
@@ -20,7 +20,7 @@ Proof. exact ScopeProps.C09_sound_vars. Qed.
     before the `def` of its function is accepted [D12]. *)
 Theorem C09_sound_refuted :
   exists T p e g t o,
-    check_program T as_is p = Ok (e, g) /\ ssruns T false [] p t o /\
+    check_program T restored p = Ok (e, g) /\ ssruns T false [] p t o /\
     ~ all_events fread_ok [[]] [] t.
 Proof. exact ScopeWitness.C09_sound_refuted. Qed.
 
@@ -74,7 +74,7 @@ Proof. exact ScopeLex.lexical_agreement. Qed.
 Theorem C09_complete_paths_refuted :
   exists T p,
     (forall t o, ssruns T false [] p t o -> preceded [] t) /\
-    check_program T as_is p = Rej KUndef.
+    check_program T restored p = Rej KUndef.
 Proof. exact ScopeWitness.C09_complete_paths_refuted. Qed.
 
 (** the environment lookup used above is what the code's [get_var] computes *)
@@ -93,7 +93,7 @@ Check C09_sound_vars :
     all_events read_ok [[]] [] t /\ preceded [] t.
 Check C09_sound_refuted :
   exists T p e g t o,
-    check_program T as_is p = Ok (e, g) /\ ssruns T false [] p t o /\ ~ all_events fread_ok [[]] [] t.
+    check_program T restored p = Ok (e, g) /\ ssruns T false [] p t o /\ ~ all_events fread_ok [[]] [] t.
 Check C09_sound_outside_known :
   forall T strict p e g t o,
     ord_stmts [] p = true ->
@@ -108,7 +108,7 @@ Check C09_complete_lexical :
     end.
 Check C09_complete_paths_refuted :
   exists T p,
-    (forall t o, ssruns T false [] p t o -> preceded [] t) /\ check_program T as_is p = Rej KUndef.
+    (forall t o, ssruns T false [] p t o -> preceded [] t) /\ check_program T restored p = Rej KUndef.
 Print Assumptions C09_sound_vars.
 Print Assumptions C09_sound_refuted.
 Print Assumptions C09_sound_outside_known.
